@@ -1,5 +1,5 @@
 //! C02 — Unix timestamps <-> UTC date-times. Shapes S (all days, all seconds of day) + P (unit lattices).
-use chrono::{DateTime, MappedLocalTime, TimeZone, Utc};
+use chrono::{DateTime, FixedOffset, MappedLocalTime, NaiveDateTime, TimeZone, Utc};
 use chrono_mc::core::*;
 use chrono_mc::lattice::*;
 use chrono_mc::refcal::*;
@@ -97,6 +97,36 @@ fn from_ts(acc: &mut Acc, secs: i64, nsec: u32) {
     if !same {
         acc.violation("Utc.timestamp_opt", format!("Utc.timestamp_opt({}, {})", secs, nsec), format!("{:?}", got), format!("{:?}", u));
     }
+    // sibling forms: another zone's generic wrapper (same instant, the zone's offset), the deprecated NaiveDateTime
+    // constructors / readers and the deprecated panicking forms
+    let fo = FixedOffset::east_opt(if secs % 2 == 0 { 19_800 } else { -34_200 }).unwrap();
+    let f = fo.timestamp_opt(secs, nsec).single();
+    acc.transitions += 3;
+    if f.map(|x| (x.naive_utc(), x.offset().local_minus_utc())) != got.map(|x| (x.naive_utc(), fo.local_minus_utc())) {
+        acc.violation("FixedOffset.timestamp_opt", format!("FixedOffset({}).timestamp_opt({}, {})", fo, secs, nsec), format!("{:?} at that offset", got), format!("{:?}", f));
+    }
+    #[allow(deprecated)]
+    {
+        let n = NaiveDateTime::from_timestamp_opt(secs, nsec);
+        if n != got.map(|x| x.naive_utc()) {
+            acc.violation("NaiveDateTime::from_timestamp_opt (deprecated form)", format!("NaiveDateTime::from_timestamp_opt({}, {})", secs, nsec), format!("{:?}", got.map(|x| x.naive_utc())), format!("{:?}", n));
+        }
+        if let (Some(n), Some(dt)) = (n, got) {
+            let a = (n.timestamp(), n.timestamp_millis(), n.timestamp_micros(), n.timestamp_nanos_opt(), n.timestamp_subsec_millis(), n.timestamp_subsec_micros(), n.timestamp_subsec_nanos());
+            let b = (dt.timestamp(), dt.timestamp_millis(), dt.timestamp_micros(), dt.timestamp_nanos_opt(), dt.timestamp_subsec_millis(), dt.timestamp_subsec_micros(), dt.timestamp_subsec_nanos());
+            if a != b {
+                acc.violation("NaiveDateTime::timestamp* (deprecated forms)", format!("timestamp readers of NaiveDateTime::from_timestamp_opt({}, {})", secs, nsec), format!("{:?}", b), format!("{:?}", a));
+            }
+        }
+        if ok || secs.rem_euclid(97) == 0 {
+            let p1 = guard(|| NaiveDateTime::from_timestamp(secs, nsec)).ok();
+            let p2 = guard(|| Utc.timestamp(secs, nsec)).ok();
+            acc.transitions += 2;
+            if p1 != got.map(|x| x.naive_utc()) || p2 != got {
+                acc.violation("from_timestamp / Utc.timestamp (deprecated panicking forms)", format!("NaiveDateTime::from_timestamp({0}, {1}) / Utc.timestamp({0}, {1})", secs, nsec), format!("{:?} (panic for None)", got), format!("{:?} / {:?}", p1, p2));
+            }
+        }
+    }
 }
 
 fn from_unit(acc: &mut Acc, unit: u32, c: i64) {
@@ -110,9 +140,38 @@ fn from_unit(acc: &mut Acc, unit: u32, c: i64) {
         6 => ("from_timestamp_micros", DateTime::from_timestamp_micros(c), Utc.timestamp_micros(c).single()),
         _ => ("from_timestamp_nanos", Some(DateTime::from_timestamp_nanos(c)), Some(Utc.timestamp_nanos(c))),
     };
-    acc.transitions += 2;
+    acc.transitions += 4;
     if viautc != got {
         acc.violation(&format!("Utc.{}", name), format!("Utc counterpart of DateTime::{}({})", name, c), format!("{:?}", got), format!("{:?}", viautc));
+    }
+    {
+        // the same wrappers on another zone, and the deprecated NaiveDateTime constructors
+        let fo = FixedOffset::east_opt(if c % 2 == 0 { -12_600 } else { 49_500 }).unwrap();
+        let viafo: Option<DateTime<FixedOffset>> = match unit {
+            3 => fo.timestamp_millis_opt(c).single(),
+            6 => fo.timestamp_micros(c).single(),
+            _ => Some(fo.timestamp_nanos(c)),
+        };
+        if viafo.map(|x| (x.naive_utc(), x.offset().local_minus_utc())) != got.map(|x| (x.naive_utc(), fo.local_minus_utc())) {
+            acc.violation(&format!("FixedOffset.{}", name), format!("FixedOffset({}) counterpart of DateTime::{}({})", fo, name, c), format!("{:?} at that offset", got), format!("{:?}", viafo));
+        }
+        #[allow(deprecated)]
+        let n = match unit {
+            3 => NaiveDateTime::from_timestamp_millis(c),
+            6 => NaiveDateTime::from_timestamp_micros(c),
+            _ => NaiveDateTime::from_timestamp_nanos(c),
+        };
+        if n != got.map(|x| x.naive_utc()) {
+            acc.violation(&format!("NaiveDateTime::{} (deprecated form)", name), format!("NaiveDateTime::{}({})", name, c), format!("{:?}", got.map(|x| x.naive_utc())), format!("{:?}", n));
+        }
+        if unit == 3 && (ok || c % 89 == 0) {
+            #[allow(deprecated)]
+            let p = guard(|| Utc.timestamp_millis(c)).ok();
+            acc.transitions += 1;
+            if p != got {
+                acc.violation("Utc.timestamp_millis (deprecated panicking form)", format!("Utc.timestamp_millis({})", c), format!("{:?} (panic for None)", got), format!("{:?}", p));
+            }
+        }
     }
     match (got, ok) {
         (Some(dt), true) => {
